@@ -144,5 +144,21 @@ def replay(ctx, mj, named, opts, fmt, failed):
     return bool(bad), det
 
 
+def native(ctx):
+    d = ctx.S.dump(SRC)
+    mj = d['module']
+    named = type_handles(mj)
+    done = False
+    for bits in range(16):
+        for fmt in range(3):
+            opts = {'derive_bytemuck_vertex': bool(bits & 1), 'derive_bytemuck_host_shareable': bool(bits & 2),
+                    'derive_encase_host_shareable': bool(bits & 4), 'derive_serde': bool(bits & 8)}
+            rep, det = replay(ctx, mj, named, opts, fmt, '')
+            if rep and not done:
+                done = True
+                ctx.report('C05/native', f'options {opts}: {det.get("failed") or det.get("real")}', det, True, det)
+            elif not rep:
+                ctx.replayed_ok += 1
+
 if __name__ == '__main__':
-    sys.exit(main('C05', run))
+    sys.exit(main('C05', run, native))
